@@ -28,7 +28,7 @@ CHECKS = {
          "The C06 corpus plus annotation-free files is processed 2-5 times with randomly mixed entry points; the bytes after run n+1 must equal those after run n, and annotation-free files must never change. The check is vacuous-proofed by requiring that >=90% of annotated files were actually modified by run 1.",
          "Idempotence is judged independently of correctness; SHA/bytes comparison only.", "§3 C07"),
  "C19": ("fault-injected directory workloads against the built CLI; snapshot comparison + C06 oracle per processable file",
-         "Directories mixing processable files with syntactically broken, truncated, empty and binary .go files, parseable-but-awkward files (no tag literal, malformed @tag, grouped/local/generic types, interpreted/empty literals), non-Go files, sub-directories and a directory named x.go are processed with -f/-d/-p/-p '*'; exit status and panic text are observed, unprocessable files must be byte-identical and every parseable file must equal the documented merge (so a crash or early stop that leaves later files un-injected is detected).",
+         "Directories mixing processable files with syntactically broken, truncated, empty and binary .go files, parseable-but-awkward files (no tag literal, malformed @tag, grouped/local/generic types, interpreted/empty literals), non-Go files, sub-directories and a directory named x.go are processed with -f/-d/-p/-p '*'; exit status and panic text are observed, unprocessable files must be byte-identical and every parseable file must equal the documented merge (so a crash or early stop that leaves later files un-injected is detected). The thorough tier adds a coverage-guided fuzz target feeding arbitrary bytes named *.go to the injector.",
          "Faults are file-content faults (no I/O error injection); files in sub-directories are only required not to be corrupted.", "§3 C19"),
  "C09": ("online reference-model monitor, bounded-exhaustive operation sequences + long random sequences",
          "The real LRUCache is stepped in lock-step with a 30-line reference LRU; return value, Len, removal-callback log and full recency order (Dump) are compared after every single operation. All sequences up to the length bound over a 10-letter alphabet on capacities 0..4 are enumerated completely; long random sequences cross the map-rebuild threshold thousands of times.",
@@ -42,11 +42,11 @@ CHECKS = {
  "C05": ("reference-model monitor: hand-written three-valued recognisers (no regexp, no time.Parse) vs the library on members, all single-character edits of members and random strings",
          "For each format/content rule the library's verdict through Var (1/8 also through Struct) is compared with an independent recogniser on valid members from a per-rule constructor, every single-character delete / insert / substitute / transpose of a member, random strings over a hostile alphabet, every datetime separator triple from a 7-symbol set, quoted options and patterns, numeric and slice inputs. Where the documentation does not fix membership the recogniser answers 'unspecified' and the case is counted, not judged.",
          "Trusts the recognisers' reading of the README; the regexp engine is trusted for re (only pattern extraction is under test); file/dir are judged against a tree the harness created.", "§3 C05"),
- "C13": ("crash monitor: recover() around every call + child-process exit status and journal, over a directed catalogue, grammar-aware rule mutation and random bytes",
-         "Every public entry point is called with a complete catalogue of nil / typed-nil / nested-nil / wrong-kind inputs, with every rule key under 80 argument mutations (missing, foreign, unbalanced quotes and brackets, 0-6 separators, invalid regex, overflowing bounds, 70 KB, NUL, invalid UTF-8) on values of every kind, and with random bytes as rule text on random run-time synthesised object graphs. Any panic or process-fatal error is a violation, signed by entry point + innermost library function + normalised message.",
+ "C13": ("crash monitor: recover() around every call + child-process exit status and journal, over a directed catalogue, grammar-aware rule mutation, random bytes and (thorough) coverage-guided native fuzzing",
+         "Every public entry point is called with a complete catalogue of nil / typed-nil / nested-nil / wrong-kind inputs, with every rule key under 80 argument mutations (missing, foreign, unbalanced quotes and brackets, 0-6 separators, invalid regex, overflowing bounds, 70 KB, NUL, invalid UTF-8) on values of every kind, and with random bytes as rule text on random run-time synthesised object graphs; the thorough tier adds four coverage-guided native fuzz targets. Any panic or process-fatal error is a violation, signed by entry point + innermost library function + normalised message.",
          "Excludes cyclic graphs, panicking user callbacks and reuse of a consumed validator, as the property does; only executed inputs are judged.", "§3 C13"),
- "C08": ("relational monitor across child processes: one call history replayed under 14 cache configurations / call orders, per-call comparison with an always-miss (history-free) baseline",
-         "The same seeded history of ValidateStruct / StructForFn / Struct calls (types with independent rule sets under three tag names; A-then-B, A-B-A, override-then-plain patterns; sweeps over 620 one-off types that overflow a 512-entry cache) is executed in child processes that differ only in the cache installed through SetStructTypeCache (default, LRU of capacity 512/0/1/2/3/8, sync.Map, always-miss, amnesiac) or in call order (reversed, doubled). Every call must return the same clause list in every child. Instrumented caches report hits, misses, evictions and re-analyses actually observed.",
+ "C08": ("relational monitor across child processes: one call history replayed under 17 cache configurations / call orders, per-call comparison with an always-miss (history-free) baseline",
+         "The same seeded history of ValidateStruct / StructForFn / Struct calls (types with independent rule sets under three tag names; A-then-B, A-B-A, override-then-plain patterns; sweeps over 620 one-off types that overflow a 512-entry cache) is executed in child processes that differ only in the cache installed through SetStructTypeCache (default, instrumented LRU of capacity 512/0/1/2/3/8, bare NewLRU(1/2/8), sync.Map, always-miss, amnesiac) or in call order (reversed, doubled). Every call must return the same clause list in every child. Instrumented caches report hits, misses, evictions and re-analyses actually observed.",
          "Clauses compared as sorted lists; no Go maps inside values; the reference validator is only used to say which side is wrong in a witness.", "§3 C08"),
  "C04": ("reference-model monitor: independent recursive descent vs the library on random acyclic object graphs with decoy sub-objects",
          "Random object graphs of a recursive family of named types (depth 0-5, every container form, nil / zero / populated nodes, nil elements) and of run-time synthesised struct types (nesting depth <= 4) are validated through value, pointer, pointer-to-pointer, slice, array and map top-level inputs. The (path, rule instance) pairs of the returned error must equal the reference validator's descent (descend iff required-and-non-empty or exist-and-non-zero; Parent.Field, [i], [key] naming). Independently of the reference, no clause may ever name one of the decoy sub-objects placed on unmarked, unexported and time.Time fields.",
